@@ -80,8 +80,8 @@ theorem split_ok (S : Suite F E) (key : F) (n t : Nat) (ids : List F) (tape tape
   have hcl : coeffs.length = t - 1 := generateCoefficients_length S _ _ _ _ hgen
   unfold split
   rw [validate_ok t n h1 h2]
-  have hl : (decide (ids.length ≠ n)) = false := by simp [hlen]
-  simp only [hl, Bool.false_eq_true, if_false, hgen]
+  have hl : wrongIdentifierCount (some ids) n = false := by simp [wrongIdentifierCount, hlen]
+  simp only [hl, Bool.false_eq_true, if_false, hgen, identifierList]
   unfold generateSecretShares generateSecretPolynomial
   rw [validate_ok t n h1 h2]
   have hs : (SMap.setOfList S.idLt ids).length = ids.length :=
@@ -239,7 +239,7 @@ theorem wrong_count (S : Suite F E) (key : F) (n t : Nat) (ids : List F) (tape :
     split S key n t (some ids) tape = .error .IncorrectNumberOfIdentifiers := by
   unfold split
   rw [validate_ok t n h1 h2]
-  simp [hlen]
+  simp [wrongIdentifierCount, hlen]
 
 /-- duplicate identifiers are refused (after the coefficients were drawn) -/
 theorem duplicate_ids (S : Suite F E) (key : F) (n t : Nat) (ids : List F) (tape tape' : Tape)
@@ -249,8 +249,8 @@ theorem duplicate_ids (S : Suite F E) (key : F) (n t : Nat) (ids : List F) (tape
   have hcl : coeffs.length = t - 1 := generateCoefficients_length S _ _ _ _ hgen
   unfold split
   rw [validate_ok t n h1 h2]
-  have hl : (decide (ids.length ≠ n)) = false := by simp [hlen]
-  simp only [hl, Bool.false_eq_true, if_false, hgen]
+  have hl : wrongIdentifierCount (some ids) n = false := by simp [wrongIdentifierCount, hlen]
+  simp only [hl, Bool.false_eq_true, if_false, hgen, identifierList]
   unfold generateSecretShares generateSecretPolynomial
   rw [validate_ok t n h1 h2]
   have hs : (SMap.setOfList S.idLt ids).length ≠ ids.length := by
